@@ -148,6 +148,19 @@ fn forked(f: impl FnOnce() -> String) -> String {
     }
 }
 
+/// generated code that does not return: 400 ms of CPU time (not wall-clock time: a child that is merely not scheduled on a loaded
+/// machine must not be mistaken for an endless loop), with a 20 s wall-clock backstop
+fn arm_timers() { unsafe {
+    let cpu = libc::itimerval { it_interval: libc::timeval { tv_sec: 0, tv_usec: 0 }, it_value: libc::timeval { tv_sec: 0, tv_usec: 400_000 } };
+    libc::setitimer(libc::ITIMER_PROF, &cpu, std::ptr::null_mut());
+    let wall = libc::itimerval { it_interval: libc::timeval { tv_sec: 0, tv_usec: 0 }, it_value: libc::timeval { tv_sec: 20, tv_usec: 0 } };
+    libc::setitimer(libc::ITIMER_REAL, &wall, std::ptr::null_mut());
+} }
+fn disarm_timers() { unsafe {
+    let z = libc::itimerval { it_interval: libc::timeval { tv_sec: 0, tv_usec: 0 }, it_value: libc::timeval { tv_sec: 0, tv_usec: 0 } };
+    libc::setitimer(libc::ITIMER_PROF, &z, std::ptr::null_mut()); libc::setitimer(libc::ITIMER_REAL, &z, std::ptr::null_mut());
+} }
+
 enum Vm<'a> { Mbuff(rbpf::EbpfVmMbuff<'a>), Raw(rbpf::EbpfVmRaw<'a>), NoData(rbpf::EbpfVmNoData<'a>), Fixed(rbpf::EbpfVmFixedMbuff<'a>) }
 
 macro_rules! each_vm { ($vm:expr, $v:ident => $e:expr) => { match $vm { Vm::Mbuff($v) => $e, Vm::Raw($v) => $e, Vm::NoData($v) => $e, Vm::Fixed($v) => $e } } }
@@ -278,13 +291,13 @@ pub fn run(t: &[&str]) -> String {
             let mut run_child = |vm: &mut Vm, second: Option<usize>| -> String { let e = e.clone(); forked(move || {
                 let m2r: &mut [u8] = unsafe { std::slice::from_raw_parts_mut(m2p, m2l) };
                 let b2r: &mut [u8] = unsafe { std::slice::from_raw_parts_mut(b2p, b2l) };
-                unsafe { let it = libc::itimerval { it_interval: libc::timeval { tv_sec: 0, tv_usec: 0 }, it_value: libc::timeval { tv_sec: 0, tv_usec: 400_000 } }; libc::setitimer(libc::ITIMER_REAL, &it, std::ptr::null_mut()); }
+                arm_timers();
                 let r = unsafe { match (e.as_str(), &mut *vm) {
                     ("jit", Vm::Mbuff(v)) => v.execute_program_jit(m2r, b2r), ("jit", Vm::Raw(v)) => v.execute_program_jit(m2r), ("jit", Vm::NoData(v)) => v.execute_program_jit(), ("jit", Vm::Fixed(v)) => v.execute_program_jit(m2r),
                     ("clif", Vm::Mbuff(v)) => v.execute_program_cranelift(m2r, b2r), ("clif", Vm::Raw(v)) => v.execute_program_cranelift(m2r), ("clif", Vm::NoData(v)) => v.execute_program_cranelift(), ("clif", Vm::Fixed(v)) => v.execute_program_cranelift(m2r),
                     _ => unreachable!(),
                 } };
-                unsafe { let it = libc::itimerval { it_interval: libc::timeval { tv_sec: 0, tv_usec: 0 }, it_value: libc::timeval { tv_sec: 0, tv_usec: 0 } }; libc::setitimer(libc::ITIMER_REAL, &it, std::ptr::null_mut()); }
+                disarm_timers();
                 match second {
                     None => {
                         let (nlog, logd) = log_digest();
@@ -294,13 +307,13 @@ pub fn run(t: &[&str]) -> String {
                     }
                     Some(l2) => {
                         let m3r: &mut [u8] = unsafe { std::slice::from_raw_parts_mut(m2p, l2) };
-                        unsafe { let it = libc::itimerval { it_interval: libc::timeval { tv_sec: 0, tv_usec: 0 }, it_value: libc::timeval { tv_sec: 0, tv_usec: 400_000 } }; libc::setitimer(libc::ITIMER_REAL, &it, std::ptr::null_mut()); }
+                        arm_timers();
                         let r2 = unsafe { match (e.as_str(), &mut *vm) {
                             ("jit", Vm::Mbuff(v)) => v.execute_program_jit(m3r, b2r), ("jit", Vm::Raw(v)) => v.execute_program_jit(m3r), ("jit", Vm::NoData(v)) => v.execute_program_jit(), ("jit", Vm::Fixed(v)) => v.execute_program_jit(m3r),
                             ("clif", Vm::Mbuff(v)) => v.execute_program_cranelift(m3r, b2r), ("clif", Vm::Raw(v)) => v.execute_program_cranelift(m3r), ("clif", Vm::NoData(v)) => v.execute_program_cranelift(), ("clif", Vm::Fixed(v)) => v.execute_program_cranelift(m3r),
                             _ => unreachable!(),
                         } };
-                        unsafe { let it = libc::itimerval { it_interval: libc::timeval { tv_sec: 0, tv_usec: 0 }, it_value: libc::timeval { tv_sec: 0, tv_usec: 0 } }; libc::setitimer(libc::ITIMER_REAL, &it, std::ptr::null_mut()); }
+                        disarm_timers();
                         match r2 { Ok(v) => format!("ok:r0={:016x}", v), Err(_) => "err".to_string() }
                     }
                 }
